@@ -894,7 +894,14 @@ fn read_updates_parquet(path: &PathBuf) -> StorageResult<Vec<Update>> {
         let data_columns: Vec<ArrayRef> = batch.columns()[..time_col_idx].to_vec();
 
         if data_columns.is_empty() {
-            // No data columns - shouldn't happen but handle gracefully
+            // Zero-arity tuples: only the time and diff columns were stored
+            for i in 0..batch.num_rows() {
+                updates.push(Update {
+                    data: Tuple::new(Vec::new()),
+                    time: times.value(i),
+                    diff: diffs.value(i),
+                });
+            }
             continue;
         }
 
